@@ -14,7 +14,9 @@ HOSTILE_L1 = Palette("str/hostile-latin1", "str", ["A b", "a,b;c\td", 'q"uo"te',
 FLOATS = Palette("float/plain", "float", [-1.5, 0.0, 2.5, 1e300], na=float("nan"), full_dtype=float)
 INTS = Palette("int/plain", "int", [-3, 0, 7, 2**53], has_na=False, full_dtype=int)
 TEXTNUM = Palette("str/digits", "str", ["x0", "x1", "x2", "x3"], na="", full_dtype=str)
-for p in (HOSTILE_U8, HOSTILE_L1, FLOATS, INTS, TEXTNUM):
+# strings a fixed-width NumPy array cannot hold (trailing NUL) - the binary formats have to keep them
+NULSTR = Palette("str/nul", "str", ["a\x00", "\x00", "ab", "b\x00c"], na="", full_dtype=str)
+for p in (HOSTILE_U8, HOSTILE_L1, FLOATS, INTS, TEXTNUM, NULSTR):
     gamma.BY_NAME[p.name] = p
 
 # abstract contents (columns a, b, c): content 2 has its string column starting with a missing value
@@ -24,6 +26,10 @@ CONTENTS = [
     {"cols": ["a", "b", "c"], "cell": {"a": [6], "b": [8], "c": [6]}},
     # first row: middle column missing, later column present (formats that omit nulls must not reorder columns)
     {"cols": ["a", "b", "c"], "cell": {"a": [0, 2], "b": [-1, 2], "c": [2, -1]}},
+    # other column sets than the classes above (a reader must not remember the names of an earlier file);
+    # class 5 carries NUL-terminated strings and a fixed-width string column through the binary formats
+    {"cols": ["a", "b", "c", "d"], "cell": {"a": [0, 2, 4, 6], "b": [0, 2, -1, 6], "c": [2, -1, 0, 4], "d": [0, 4, -1, 6]}},
+    {"cols": ["e", "a", "b"], "cell": {"e": [2, 0], "a": [0, 2], "b": [4, -1]}},
 ]
 MAGIC = {b"\x1f\x8b": "gz", b"BZh": "bz2", b"\xfd7zXZ\x00": "xz"}
 
@@ -31,12 +37,17 @@ MAGIC = {b"\x1f\x8b": "gz", b"BZh": "bz2", b"\xfd7zXZ\x00": "xz"}
 def palettes(owner, fmt, enc, k):
     host = HOSTILE_U8 if enc == "utf-8" else HOSTILE_L1
     if owner == "lod" and fmt == "csv":
-        return {"a": TEXTNUM, "b": host, "c": TEXTNUM}
-    c = FLOATS if (fmt == "json" or owner == "lod" or k % 2 == 1) else gamma.DATE
+        return {"a": TEXTNUM, "b": host, "c": TEXTNUM, "d": TEXTNUM, "e": TEXTNUM}
+    c = FLOATS if (fmt in ("json", "geojson") or owner == "lod" or k % 2 == 1) else gamma.DATE
     a = INTS if k != 2 else gamma.BOOL
     if owner == "lod" and fmt == "json":
         a = INTS
-    return {"a": a, "b": host, "c": c}
+    b, d = host, TEXTNUM
+    if k == 5 and fmt in ("pickle", "npz", "parquet"):
+        b = NULSTR
+        if owner == "df" and fmt != "parquet":
+            d = gamma.STR_FIXED      # Arrow has one string type: fixed-width Unicode is not kept apart there
+    return {"a": a, "b": b, "c": c, "d": d, "e": FLOATS}
 
 
 def magic_of(path):
@@ -51,11 +62,18 @@ def magic_of(path):
     return "none"
 
 
+def _geometry(i):
+    return {"type": "Point", "coordinates": [i, i + 0.5]} if i != 1 else None
+
+
 def build(owner, content, pals):
     import dataiter as di
     if owner == "df":
         return di.DataFrame(**{c: pals[c].vector(content["cell"][c], typed=True) for c in content["cols"]})
     n = len(content["cell"]["a"])
+    if owner == "geo":
+        cols = {c: pals[c].vector(content["cell"][c], typed=True) for c in content["cols"]}
+        return di.GeoJSON(**cols, geometry=di.Vector([_geometry(i) for i in range(n)], object))
     items = []
     for i in range(n):
         it = {}
@@ -70,12 +88,40 @@ def build(owner, content, pals):
     return di.ListOfDicts(items)
 
 
+def _missing_for_dtype(x, kind):
+    """Missing by the representation the column's dtype uses (C10): NaN in a float column, NaT, "" in a
+    string column, None in an object column - a NaN inside an object column is not a missing value."""
+    if kind == "O":
+        return x is None
+    if kind in "TU":
+        return isinstance(x, str) and x == ""
+    return gamma.is_missing(x)
+
+
+def _alpha_col(pal, arr):
+    a = np.asarray(arr)
+    out = []
+    for i in range(a.shape[0]):
+        x = a[i]
+        if _missing_for_dtype(x, a.dtype.kind):
+            out.append(NA)
+        elif gamma.is_missing(x):
+            out.append(gamma.ALIEN)      # e.g. NaN inside an object column, "nan" text is caught by the palette
+        else:
+            out.append(pal.alpha(x))
+    return out
+
+
 def observe(owner, obj, pals):
     import dataiter as di
-    if owner == "df":
-        cols = list(obj.keys())
-        return {"cols": cols, "cell": {c: (pals[c].alpha_seq(np.asarray(obj[c])) if c in pals else [gamma.ALIEN]) for c in cols}}, \
-               {c: np.asarray(obj[c]).dtype.kind for c in cols}
+    if owner in ("df", "geo"):
+        cols = [c for c in obj.keys() if not (owner == "geo" and c == "geometry")]
+        frame = {"cols": cols, "cell": {c: (_alpha_col(pals[c], obj[c]) if c in pals else [gamma.ALIEN]) for c in cols}}
+        kinds = {c: str(np.asarray(obj[c]).dtype) for c in cols}
+        if owner == "geo":
+            kinds["geometry"] = json.dumps(list(obj["geometry"]), default=str) if "geometry" in obj else "absent"
+            kinds["metadata"] = json.dumps(dict(obj.metadata), sort_keys=True, default=str)
+        return frame, kinds
     keys = list(dict.fromkeys(k for it in obj for k in it))
     cell = {}
     for k in keys:
@@ -87,6 +133,47 @@ def observe(owner, obj, pals):
     return {"cols": keys, "cell": cell}, {k: "".join(sorted({type(it.get(k)).__name__ for it in obj})) for k in keys}
 
 
+def write_foreign(path, e, content, pals):
+    """A file as another program writes it: Parquet from NumPy arrays through pyarrow (NaN stays a NaN value, it is
+    not a null), CSV through the csv module with NaN spelled NAN (which Arrow parses as a float NaN, not as a null)."""
+    cols = content["cols"]
+    conc = {c: pals[c].concrete(content["cell"][c]) for c in cols}
+    if e["fmt"] == "parquet":
+        import pyarrow as pa
+        import pyarrow.parquet as pq
+        arrays = {}
+        for c in cols:
+            p = pals[c]
+            if p.kind == "float":
+                arrays[c] = pa.array(np.array(conc[c], float))
+                assert arrays[c].null_count == 0
+            elif p.kind == "date":
+                arrays[c] = pa.array(np.array(conc[c], "datetime64[D]"))
+            elif p.kind == "str":
+                arrays[c] = pa.array([None if v == "" else v for v in conc[c]], pa.string())
+            else:
+                arrays[c] = pa.array(conc[c])
+        pq.write_table(pa.table(arrays), path)
+        return
+    import csv
+    with open(path, "w", encoding=e["enc"], newline="") as f:
+        w = csv.writer(f, delimiter=e["sep"], quoting=csv.QUOTE_MINIMAL, lineterminator="\n")
+        if e["header"]:
+            w.writerow(cols)
+        for i in range(len(conc[cols[0]])):
+            row = []
+            for c in cols:
+                v = conc[c][i]
+                if isinstance(v, float) and v != v:
+                    v = "NAN"
+                elif v is None:
+                    v = ""
+                elif isinstance(v, bool):
+                    v = "true" if v else "false"
+                row.append(v)
+            w.writerow(row)
+
+
 def do_write(d, e, contents_written):
     import dataiter as di
     path = os.path.join(d, e["stem"] + "." + e["fmt"] + e["suffix"])
@@ -95,7 +182,9 @@ def do_write(d, e, contents_written):
     try:
         obj = build(e["owner"], CONTENTS[e["c"] - 1], pals)
         f = e["fmt"]
-        if f == "pickle":
+        if e.get("ext"):
+            write_foreign(path, e, CONTENTS[e["c"] - 1], pals)
+        elif f == "pickle":
             obj.write_pickle(path)
         elif f == "npz":
             obj.write_npz(path)
@@ -103,6 +192,8 @@ def do_write(d, e, contents_written):
             obj.write_parquet(path)
         elif f == "json":
             obj.write_json(path, encoding=e["enc"])
+        elif f == "geojson":
+            obj.write(path, encoding=e["enc"])
         elif f == "csv":
             obj.write_csv(path, encoding=e["enc"], sep=e["sep"], header=e["header"])
         _, kinds = observe(e["owner"], obj, pals)
@@ -117,48 +208,90 @@ def do_write(d, e, contents_written):
 def reader(owner, fmt, alias):
     import dataiter as di
     if alias:
-        return {"csv": di.read_csv, "npz": di.read_npz, "parquet": di.read_parquet, "json": di.read_json}[fmt]
+        return {"csv": di.read_csv, "npz": di.read_npz, "parquet": di.read_parquet, "json": di.read_json,
+                "geojson": di.read_geojson}[fmt]
+    if owner == "geo":
+        return di.GeoJSON.read
     cls = di.DataFrame if owner == "df" else di.ListOfDicts
     return getattr(cls, "read_" + fmt)
+
+
+CAST_COL = {"float": "a", "object": "c", "str": "c"}
+CAST_DTYPE = {"float": float, "object": object, "str": str}
+
+
+def _cast_image(src, cast):
+    if cast == "float":
+        img = [float(str(v).replace("x", "")) if isinstance(v, str) else float(v) for v in src.values]
+        return Palette(src.name + "->float", "float", img, na=float("nan"))
+    if cast == "object":
+        return Palette(src.name + "->object", "obj", list(src.values), na=None)
+    img = [v.isoformat() if hasattr(v, "isoformat") else str(v) for v in src.values]
+    return Palette(src.name + "->str", "str", img, na="")
+
+
+def _equal_kinds(fmt, kinds, kinds_w, cols):
+    def norm(k):
+        # Arrow has one string type (see palettes)
+        return "str" if fmt == "parquet" and (k.startswith("<U") or k.startswith("StringDType")) else k
+    return all(norm(kinds.get(c, "?")) == norm(kinds_w.get(c, "??")) for c in cols)
 
 
 def do_read(d, e, contents_written):
     path = os.path.join(d, e["stem"] + "." + e["fmt"] + e["suffix"])
     pals, kinds_w = contents_written.get((e["stem"], e["suffix"]), ({}, {}))
     obs = {"err": "", "frame": {"cols": [], "cell": {}}, "kinds_same": True, "alias_same": True, "cast_ok": True}
+    cast = e["cast"] if isinstance(e["cast"], str) else ("float" if e["cast"] else "")
 
-    def call(alias):
+    def call(alias, extra=None):
         kw = {}
         f, o = e["fmt"], e["owner"]
-        if f in ("csv", "json"):
+        if f in ("csv", "json", "geojson"):
             kw["encoding"] = e["enc"]
         if f == "csv":
             kw["sep"], kw["header"] = e["sep"], e["header"]
         if e["cols"]:
-            kw["columns" if o == "df" else "keys"] = list(e["cols"])
-        if e["cast"]:
-            if o == "df":
-                kw["dtypes"] = {"a": float}
+            kw["columns" if o != "lod" else "keys"] = list(e["cols"])
+        if cast:
+            if o != "lod":
+                kw["dtypes"] = {CAST_COL[cast]: CAST_DTYPE[cast]}
             else:
                 kw["types"] = {"a": (lambda x: float(str(x).replace("x", "")))}
+        kw.update(extra or {})
         return reader(o, f, alias)(path, **kw)
-    if e["cast"] and "a" in pals:
-        # after the dtype / type mapping column a holds floats: read it with the float image of its palette
-        src = pals["a"]
-        img = [float(str(v).replace("x", "")) if isinstance(v, str) else float(v) for v in src.values]
-        pals = dict(pals, a=Palette(src.name + "->float", "float", img, na=float("nan")))
+
+    def outcome(alias, extra):
+        try:
+            res = call(alias, extra)
+        except Exception as ex:
+            return ("raised", type(ex).__name__)
+        fr, kd = observe(e["owner"], res, pals)
+        return ("returned", type(res).__name__, fr, kd)
+
+    if cast and CAST_COL[cast] in pals:
+        # after the dtype / type mapping the column holds the image of its palette under the cast
+        col = CAST_COL[cast]
+        pals = dict(pals, **{col: _cast_image(pals[col], cast)})
     try:
         res = call(False)
         frame, kinds = observe(e["owner"], res, pals)
         obs["frame"] = frame
-        if not e["cast"]:
-            obs["kinds_same"] = all(kinds.get(c) == kinds_w.get(c) for c in frame["cols"])
-        else:
-            obs["cast_ok"] = (kinds.get("a") in ("f", "float", "floatNoneType", "NoneTypefloat")) if "a" in frame["cols"] else True
+        if not cast:
+            obs["kinds_same"] = _equal_kinds(e["fmt"], kinds, kinds_w, frame["cols"])
+        elif CAST_COL[cast] in frame["cols"]:
+            k = kinds.get(CAST_COL[cast])
+            if e["owner"] == "lod":
+                obs["cast_ok"] = k in ("float", "floatNoneType", "NoneTypefloat")
+            else:
+                obs["cast_ok"] = {"float": k == "float64", "object": k == "object", "str": k.startswith("StringDType")}[cast]
         if e["alias"]:
-            res2 = call(True)
-            f2, k2 = observe(e["owner"], res2, pals)
-            obs["alias_same"] = (f2 == frame and k2 == kinds and type(res2) is type(res))
+            # every keyword argument of the alias: the call's own arguments, then the ones only forwarded
+            variants = [None]
+            if e["fmt"] in ("json", "geojson"):
+                variants.append({"parse_int": float})
+            if e["fmt"] == "npz":
+                variants += [{"allow_pickle": False}, {"allow_pickle": True}]
+            obs["alias_same"] = all(outcome(True, x) == outcome(False, x) for x in variants)
     except Exception as ex:
         obs["err"] = type(ex).__name__ + ": " + str(ex)[:80]
     return obs
@@ -170,8 +303,13 @@ def run_behaviour(hist):
     written = {}
     steps = []
     try:
+        foreign = {}
         for e in hist:
             e = dict(e)
+            if e["t"] == "write":
+                foreign[(e["stem"], e["suffix"])] = bool(e.get("ext"))
+            elif foreign.get((e["stem"], e["suffix"])):
+                e["foreign"] = True
             e["obs"] = do_write(d, e, written) if e["t"] == "write" else do_read(d, e, written)
             steps.append(e)
     finally:
@@ -183,6 +321,8 @@ def sig_of(e):
     s = {"t": e["t"], "owner": e["owner"], "fmt": e["fmt"], "suffix": e["suffix"]}
     if e["t"] == "read":
         s.update({"restricted": bool(e["cols"]), "alias": e["alias"], "cast": e["cast"]})
+        if e.get("foreign"):
+            s["foreign_file"] = True
         if e["cols"]:
             s["restriction_in_file_order"] = list(e["cols"]) == sorted(e["cols"])
     return s
@@ -194,7 +334,7 @@ MINE = {"C12": lambda c, e: c.startswith("write:") or (c.startswith("read:") and
 
 def gen(ctx, maxsteps, ncontents, fmts, seps, encs):
     q = lambda xs: ", ".join('"%s"' % x for x in xs)
-    cfg = ('INIT Init\nNEXT Next\nINVARIANT Inv\nCONSTANTS\n MaxSteps = %d\n Emit = TRUE\n NContents = %d\n Owners = {"df", "lod"}\n'
+    cfg = ('INIT Init\nNEXT Next\nINVARIANT Inv\nCONSTANTS\n MaxSteps = %d\n Emit = TRUE\n NContents = %d\n Owners = {"df", "lod", "geo"}\n'
            ' Fmts = {%s}\n Seps = {%s}\n Encs = {%s}\n' % (maxsteps, ncontents, q(fmts), q(seps).replace("\t", "\\t"), q(encs)))
     r = ctx.model_check("StoreMC", cfg_text=cfg, timeout=3000, heap="10g")
     return [j["hist"] for j in r.json_lines if "hist" in j]
@@ -203,14 +343,27 @@ def gen(ctx, maxsteps, ncontents, fmts, seps, encs):
 def run_for(ctx, prop):
     quick = ctx.tier == "quick"
     rng = ctx.rng
-    ALLF = ["pickle", "npz", "parquet", "csv", "json"]
+    ALLF = ["pickle", "npz", "parquet", "csv", "json", "geojson"]
     # every configuration: one write followed by one read (whole / restricted / alias / cast)
-    hists = gen(ctx, 2, 4, ALLF, [",", ";", "\t"], ["utf-8", "latin-1"])
+    hists = gen(ctx, 2, len(CONTENTS), ALLF, [",", ";", "\t"], ["utf-8", "latin-1"])
     # interleavings: two writes (overwrite, or another suffix of the same stem) then reads
     hists3 = gen(ctx, 3, 2, ["pickle", "csv", "json"], [","], ["utf-8"])
     hists3 = [h for h in hists3 if len(h) == 3]
     ctx.extra["behaviours_enumerated"] = len(hists) + len(hists3)
-    chosen = hists if not quick else rng.sample(hists, min(len(hists), 2500))
+    if quick:
+        # stratified by (owner, format, foreign file, mapping, alias, restricted): every kind of read is present,
+        # the ones the property at hand owns more often
+        strata = {}
+        for h in hists:
+            w, r = h[0], h[-1]
+            strata.setdefault((w["owner"], w["fmt"], w["ext"], r["cast"], r["alias"], bool(r["cols"])), []).append(h)
+        chosen = []
+        for key in sorted(strata):
+            plain = not (key[3] or key[4] or key[5])
+            n = 60 if plain == (prop == "C12") else 8
+            chosen += rng.sample(strata[key], min(len(strata[key]), n))
+    else:
+        chosen = hists
     chosen = chosen + rng.sample(hists3, min(len(hists3), 600 if quick else 12000))
     traces = [run_behaviour(h) for h in chosen]
     bad = validate(ctx, traces)
